@@ -63,7 +63,15 @@ def last_write(ov0, hist):
 class C06(Prop):
     id = "C06"
     lean_modules = ["PkgProofs.Props.C06"]
-    theorems = []          # filled in below
+    theorems = [
+        "C06.gate", "C06.gate_rejects", "C06.spec_gate", "C06.names_ne", "C06.names_iff", "C06.spec_contains_eq",
+        "C06.final_unaffected", "C06.spec_final_unaffected", "C06.enable_monotone", "C06.spec_enable_monotone",
+        "C06.override_true_eq_call_true", "C06.set_filter_is_filter", "C06.spec_filter_fallback",
+        "C06.empty_set_fallback", "C06.installed_uses_base", "C06.installed_final",
+        "C06.history_last_write_wins", "C06.lastWrite_eq", "C06.calls_do_not_write", "C06.history_observations",
+        "SS.contains_eq_admits", "SS.contains_installed", "SS.filterChain_ok", "SS.spec_filter_some",
+        "SS.spec_filter_none", "SS.preOk",
+    ]
     rule = ("per sampled case: a specifier / a set of 0-4 clauses (string-built or from Specifier objects with their own "
             "overrides) x a candidate list of 0-8 spelled versions (mixed str/Version objects, shuffled, with and without "
             "final releases, with and without matching ones) x all 27 combinations of constructor override, later "
